@@ -13,103 +13,165 @@ theorem run_append (c : IC) (a b : List Ev) : run c (a ++ b) = run (run c a) b :
   | nil => rfl
   | cons e es ih => simp [run, ih]
 
+theorem refresh_wf {c : IC} {T : Nat} (h : Wf c T) : Wf (refresh c) T :=
+  ⟨by simp only [refresh, h.dur]; omega, Nat.le_refl _, h.tmo⟩
+
+theorem intake_wf {c : IC} {T : Nat} (h : Wf c T) : Wf (intake c) T := by
+  unfold intake
+  split
+  · exact h
+  · have := refresh_wf h
+    refine ⟨this.dur, this.le, ?_⟩
+    simp only
+    split
+    · exact Or.inr rfl
+    · exact this.tmo
+
+theorem output_wf {c : IC} {T : Nat} (h : Wf c T) : Wf (output c) T := by
+  unfold output
+  split
+  · exact refresh_wf (c := { c with txlen := _ }) ⟨h.dur, h.le, h.tmo⟩
+  · exact h
+
 theorem svc_wf {c : IC} {T : Nat} (h : Wf c T) : Wf (svc c) T := by
   unfold svc
   split
   · exact h
   · split
     · exact ⟨h.dur, h.le, h.tmo⟩
-    · split
-      · exact h
-      · refine ⟨?_, Nat.le_refl _, ?_⟩
-        · simp only [h.dur]; omega
-        · simp only
-          split
-          · exact Or.inr rfl
-          · exact h.tmo
+    · have hi := intake_wf h
+      simp only
+      split
+      · exact ⟨hi.dur, hi.le, hi.tmo⟩
+      · exact output_wf hi
 
-theorem step_wf {c : IC} {T : Nat} (e : Ev) (h : Wf c T) : Wf (step c e) T := by
+theorem step_wf {c : IC} {T : Nat} (e : Ev) (h : Wf c T) (ho : c.isOpen = true) : Wf (step c e) T := by
   cases e with
   | tick d => exact ⟨h.dur, by simp [step]; have := h.le; omega, h.tmo⟩
-  | arrive a => simp only [step]; split <;> exact ⟨h.dur, h.le, h.tmo⟩
+  | arrive a =>
+    simp only [step, ho, ↓reduceIte]
+    cases a <;> exact ⟨h.dur, h.le, h.tmo⟩
   | svc => exact svc_wf h
-
-theorem run_wf (evs : List Ev) : ∀ {c : IC} {T : Nat}, Wf c T → Wf (run c evs) T := by
-  induction evs with
-  | nil => intro c T h; exact h
-  | cons e es ih => intro c T h; exact ih (step_wf e h)
-
-theorem accept_wf (t T : Nat) : Wf (accept t T) T := ⟨rfl, Nat.le_refl _, Or.inl rfl⟩
-
-/-- a service that finds nothing new either leaves everything as it is or closes -/
-theorem svc_quiet (c : IC) (h : c.inbox = []) :
-    (svc c).stop = c.stop ∧ (svc c).start = c.start ∧ (svc c).tymeout = c.tymeout ∧ (svc c).inbox = [] ∧
-      (svc c).now = c.now ∧ (c.isOpen = false → (svc c).isOpen = false) := by
-  unfold svc
-  split
-  · simp [h]
-  · split
-    · simp [h]
-    · simp [h]
-
-theorem run_quiet (evs : List Ev) : ∀ (c : IC), noArrivals evs = true → c.inbox = [] →
-    (run c evs).stop = c.stop ∧ (run c evs).start = c.start ∧ (run c evs).tymeout = c.tymeout ∧
-      (run c evs).inbox = [] ∧ (run c evs).now = c.now + ticks evs ∧
-      (c.isOpen = false → (run c evs).isOpen = false) := by
-  induction evs with
-  | nil => intro c _ h; simp [run, ticks, h]
-  | cons e es ih =>
-    intro c hn hi
-    cases e with
-    | tick d =>
-      have := ih { c with now := c.now + d } (by simpa [noArrivals] using hn) hi
-      simp only [run, step, ticks]
-      refine ⟨this.1, this.2.1, this.2.2.1, this.2.2.2.1, ?_, this.2.2.2.2.2⟩
-      rw [this.2.2.2.2.1]; simp only; omega
-    | arrive a => simp [noArrivals] at hn
-    | svc =>
-      have q := svc_quiet c hi
-      have := ih (svc c) (by simpa [noArrivals] using hn) q.2.2.2.1
-      simp only [run, step, ticks]
-      refine ⟨by rw [this.1, q.1], by rw [this.2.1, q.2.1], by rw [this.2.2.1, q.2.2.1], this.2.2.2.1,
-              by rw [this.2.2.2.2.1, q.2.2.2.2.1], fun hc => this.2.2.2.2.2 (q.2.2.2.2.2 hc)⟩
+  | wind t =>
+    simp only [step, ho, ↓reduceIte]
+    exact ⟨by simp only [h.dur]; omega, Nat.le_refl _, h.tmo⟩
+  | cap k =>
+    simp only [step, ho, ↓reduceIte]
+    exact ⟨h.dur, h.le, h.tmo⟩
 
 theorem svc_closed (c : IC) (h : c.isOpen = false) : svc c = c := by
   unfold svc; simp [h]
 
+theorem step_closed (c : IC) (e : Ev) (h : c.isOpen = false) : (step c e).isOpen = false := by
+  cases e with
+  | tick d => exact h
+  | arrive a => simp [step, h]
+  | svc => simp only [step]; rw [svc_closed c h]; exact h
+  | wind t => simp [step, h]
+  | cap k => simp [step, h]
+
 theorem run_closed (evs : List Ev) : ∀ (c : IC), c.isOpen = false → (run c evs).isOpen = false := by
   induction evs with
   | nil => intro c h; exact h
-  | cons e es ih =>
-    intro c h
-    apply ih
-    cases e with
-    | tick d => exact h
-    | arrive a => simp [step, h]
-    | svc => simp only [step]; rw [svc_closed c h]; exact h
+  | cons e es ih => intro c h; exact ih _ (step_closed c e h)
 
-/-- a stretch without any service: only the clock and the inbox move -/
-theorem run_nosvc (evs : List Ev) : ∀ (c : IC), noSvc evs = true → c.isOpen = true →
-    (run c evs).stop = c.stop ∧ (run c evs).start = c.start ∧ (run c evs).tymeout = c.tymeout ∧
-      (run c evs).isOpen = true ∧ (run c evs).now = c.now + ticks evs ∧
-      (hasArrival evs = true → (run c evs).inbox ≠ []) ∧ (c.inbox ≠ [] → (run c evs).inbox ≠ []) := by
+/-- a live connection stays well formed through any history (while it is open) -/
+theorem run_wf (evs : List Ev) : ∀ {c : IC} {T : Nat}, Wf c T → c.isOpen = true →
+    (run c evs).isOpen = true → Wf (run c evs) T := by
   induction evs with
-  | nil => intro c _ h; simp [run, ticks, h, hasArrival]
+  | nil => intro c T h _ _; exact h
+  | cons e es ih =>
+    intro c T h ho hf
+    by_cases hs : (step c e).isOpen = true
+    · exact ih (step_wf e h ho) hs hf
+    · have : (run (step c e) es).isOpen = false := run_closed es _ (by simpa using hs)
+      simp only [run] at hf
+      rw [this] at hf; cases hf
+
+theorem accept_wf (t T r : Nat) : Wf (accept t T r) T := ⟨rfl, Nat.le_refl _, Or.inl rfl⟩
+
+/-- nothing to read and nothing that can leave -/
+def Still (c : IC) : Prop := c.inbox = [] ∧ (c.txlen = 0 ∨ c.cap = 0)
+
+theorem svc_still' (c : IC) (h : Still c) (ho : c.isOpen = true) : (svc c).isOpen = false ∨ svc c = c := by
+  have hmin : min c.cap c.txlen = 0 := by rcases h.2 with h2 | h2 <;> simp [h2]
+  have hi : intake c = c := by simp [intake, h.1]
+  have hout : output c = c := by simp [output, hmin]
+  unfold svc
+  simp only [ho, Bool.not_true, Bool.false_eq_true, ↓reduceIte, hi]
+  split
+  · exact Or.inl rfl
+  · split
+    · exact Or.inl rfl
+    · exact Or.inr hout
+
+theorem svc_still (c : IC) (h : Still c) (ho : c.isOpen = true) :
+    (svc c).isOpen = false ∨
+    ((svc c).isOpen = true ∧ (svc c).stop = c.stop ∧ (svc c).start = c.start ∧ (svc c).tymeout = c.tymeout ∧
+      Still (svc c) ∧ (svc c).now = c.now) := by
+  rcases svc_still' c h ho with h1 | h1
+  · exact Or.inl h1
+  · rw [h1]; exact Or.inr ⟨ho, rfl, rfl, rfl, h, rfl⟩
+
+theorem run_quiet (evs : List Ev) : ∀ (c : IC), quiet evs = true → Still c → c.isOpen = true →
+    (run c evs).isOpen = false ∨
+    ((run c evs).isOpen = true ∧ (run c evs).stop = c.stop ∧ (run c evs).start = c.start ∧
+      (run c evs).tymeout = c.tymeout ∧ Still (run c evs) ∧ (run c evs).now = c.now + ticks evs) := by
+  induction evs with
+  | nil => intro c _ h ho; exact Or.inr ⟨ho, rfl, rfl, rfl, h, by simp [run, ticks]⟩
+  | cons e es ih =>
+    intro c hq hs ho
+    cases e with
+    | tick d =>
+      rcases ih { c with now := c.now + d } (by simpa [quiet] using hq) hs ho with h | h
+      · exact Or.inl h
+      · refine Or.inr ⟨h.1, h.2.1, h.2.2.1, h.2.2.2.1, h.2.2.2.2.1, ?_⟩
+        simp only [run, step, ticks]; rw [h.2.2.2.2.2]; simp only; omega
+    | svc =>
+      rcases svc_still c hs ho with h | h
+      · exact Or.inl (run_closed es _ h)
+      · rcases ih (svc c) (by simpa [quiet] using hq) h.2.2.2.2.1 h.1 with g | g
+        · exact Or.inl g
+        · refine Or.inr ⟨g.1, ?_, ?_, ?_, g.2.2.2.2.1, ?_⟩
+          · simp only [run, step]; rw [g.2.1, h.2.1]
+          · simp only [run, step]; rw [g.2.2.1, h.2.2.1]
+          · simp only [run, step]; rw [g.2.2.2.1, h.2.2.2.1]
+          · simp only [run, step, ticks]; rw [g.2.2.2.2.2, h.2.2.2.2.2]
+    | arrive a => simp [quiet] at hq
+    | wind t => simp [quiet] at hq
+    | cap k => simp [quiet] at hq
+
+/-- a stretch without service or re-wind: only the clock, the inbox and the socket's send capacity move -/
+theorem run_calm (evs : List Ev) : ∀ (c : IC), calm evs = true → c.isOpen = true →
+    (run c evs).stop = c.stop ∧ (run c evs).start = c.start ∧ (run c evs).tymeout = c.tymeout ∧
+      (run c evs).isOpen = true ∧ (run c evs).now = c.now + ticks evs ∧ (run c evs).idleClosed = c.idleClosed := by
+  induction evs with
+  | nil => intro c _ h; simp [run, ticks, h]
   | cons e es ih =>
     intro c hn ho
     cases e with
     | tick d =>
-      have := ih { c with now := c.now + d } (by simpa [noSvc] using hn) ho
-      simp only [run, step, ticks, hasArrival]
-      refine ⟨this.1, this.2.1, this.2.2.1, this.2.2.2.1, ?_, this.2.2.2.2.2.1, this.2.2.2.2.2.2⟩
+      have := ih { c with now := c.now + d } (by simpa [calm] using hn) ho
+      simp only [run, step, ticks]
+      refine ⟨this.1, this.2.1, this.2.2.1, this.2.2.2.1, ?_, this.2.2.2.2.2⟩
       rw [this.2.2.2.2.1]; simp only; omega
     | arrive a =>
-      have := ih { c with inbox := c.inbox ++ [a] } (by simpa [noSvc] using hn) ho
-      have hs : step c (.arrive a) = { c with inbox := c.inbox ++ [a] } := by simp [step, ho]
-      simp only [run, ticks, hasArrival]
+      have hs : (step c (.arrive a)).stop = c.stop ∧ (step c (.arrive a)).start = c.start ∧
+          (step c (.arrive a)).tymeout = c.tymeout ∧ (step c (.arrive a)).isOpen = true ∧
+          (step c (.arrive a)).now = c.now ∧ (step c (.arrive a)).idleClosed = c.idleClosed := by
+        simp only [step, ho, ↓reduceIte]
+        cases a <;> simp [arrive, ho]
+      have := ih (step c (.arrive a)) (by simpa [calm] using hn) hs.2.2.2.1
+      simp only [run, ticks]
+      exact ⟨by rw [this.1, hs.1], by rw [this.2.1, hs.2.1], by rw [this.2.2.1, hs.2.2.1], this.2.2.2.1,
+             by rw [this.2.2.2.2.1, hs.2.2.2.2.1], by rw [this.2.2.2.2.2, hs.2.2.2.2.2]⟩
+    | cap k =>
+      have hs : step c (.cap k) = { c with cap := k } := by simp [step, ho]
+      have := ih { c with cap := k } (by simpa [calm] using hn) ho
+      simp only [run, ticks]
       rw [hs]
-      refine ⟨this.1, this.2.1, this.2.2.1, this.2.2.2.1, this.2.2.2.2.1, fun _ => this.2.2.2.2.2.2 (by simp),
-              fun _ => this.2.2.2.2.2.2 (by simp)⟩
-    | svc => simp [noSvc] at hn
+      exact this
+    | svc => simp [calm] at hn
+    | wind t => simp [calm] at hn
 
 end Hio.Idle
